@@ -2,8 +2,10 @@ import F3.Model.CodecBytes
 /-! Model of `/repo/merkle/merkle.go` (`Tree`, `BatchTree`, `buildTree`, `depth`, leaf / internal
 hashing with domain-separation markers). Core-only and executable.
 
-The hash function `H : Bytes → Bytes` (keccak-256 in the implementation) is a parameter: theorems take
-its collision-freeness as a hypothesis, the driver instantiates it with `F3.Codec.Hash.keccak256`. -/
+The hash function `H : Bytes → Bytes` (keccak-256 in the implementation) is a parameter; the driver
+instantiates it with `F3.Codec.Hash.keccak256`. The injectivity theorems are collision-resistance
+reductions over the strings actually hashed (`F3.HashInputs.hashed`, `F3/Spec/HashInputs.lean`) and hold
+for every `H`; the versions that assume an injective `H` are idealised corollaries. -/
 namespace F3.Merkle
 open F3.Codec
 
